@@ -271,6 +271,19 @@ func (g *Graph) addFunc(fn *ssa.Function) {
 					}
 				}
 				g.add(valNode(in), Node("fn:"+clo.String()), false, "closure")
+				// a method value (x.m handed over as a function): the wrapper is synthetic and not walked, so the bound
+				// receiver is connected to the method's receiver parameter here
+				if clo.Synthetic != "" && strings.HasSuffix(clo.Name(), "$bound") && len(in.Bindings) == 1 {
+					for _, b := range clo.Blocks {
+						for _, ci := range b.Instrs {
+							if call, ok := ci.(ssa.CallInstruction); ok {
+								if m := call.Common().StaticCallee(); m != nil && len(m.Params) > 0 {
+									g.add(valNode(m.Params[0]), valNode(in.Bindings[0]), false, "bound-recv")
+								}
+							}
+						}
+					}
+				}
 			case *ssa.Return:
 				for i, r := range in.Results {
 					g.add(Node(fmt.Sprintf("ret:%s@%d#%d", fn.String(), fn.Pos(), i)), valNode(r), false, "return")
@@ -376,6 +389,9 @@ func (g *Graph) addCall(fn *ssa.Function, ci ssa.CallInstruction) {
 	name := "?"
 	if s := com.StaticCallee(); s != nil {
 		name = s.String()
+	} else if len(callees) == 1 && callees[0] != nil && !com.IsInvoke() {
+		// a call through a function value that can only be one function (var timeNow = time.Now)
+		name = callees[0].String()
 	} else if com.IsInvoke() {
 		name = "invoke " + com.Method.FullName()
 	}
